@@ -1411,7 +1411,10 @@ impl DataType {
     /// filtered by the predicate `Value`
     fn filter_by_value(&self, predicate: &Value) -> DataType {
         match predicate {
-            value::Value::Boolean(b) if !*b.deref() => self.try_empty().unwrap(),
+            // Some types (Id, Enum, Any...) have no empty form: keeping them unchanged is still a superset
+            value::Value::Boolean(b) if !*b.deref() => {
+                self.try_empty().unwrap_or_else(|_| self.clone())
+            }
             _ => self.clone(),
         }
     }
